@@ -1,10 +1,12 @@
 package rmdrv
 
 import (
+	"encoding/json"
 	"fmt"
 	"io"
 	"os"
 	"path/filepath"
+	"strings"
 )
 
 // Replay re-executes a recorded history (witness file) and returns the monitor firings.
@@ -43,6 +45,16 @@ func Replay(res *HistResult, work string, w io.Writer) []Violation {
 				k = c.Key
 			}
 			fmt.Fprintf(w, "      update %s: cpus=%q mems=%q shares=%v\n", k, res.GetCpu().GetCpus(), res.GetCpu().GetMems(), res.GetCpu().GetShares().GetValue())
+		}
+		if d := os.Getenv("VERIF_DUMP"); d != "" && (d == "all" || strings.Contains(","+d+",", fmt.Sprintf(",%d,", i+1))) {
+			if sn := r.Inst.BlnSnap(); sn != nil {
+				b, _ := json.Marshal(sn)
+				fmt.Fprintf(w, "      balloons: %s\n", b)
+			}
+			if sn := r.Inst.TASnap(); sn != nil {
+				b, _ := json.Marshal(sn)
+				fmt.Fprintf(w, "      topology-aware: %s\n", b)
+			}
 		}
 		for _, v := range r.Viol[nv:] {
 			fmt.Fprintf(w, "   !! %s/%s [%s]: %s\n", v.Prop, v.Check, v.Sig, v.Msg)
